@@ -2,7 +2,8 @@
 implementation-level oracle used to search for a concrete failing input."""
 import re
 
-from . import gen_kzg
+from . import gen_kzg, gen_pc
+from .oracles import pc_honest, pc_mutations
 
 
 def _names(*prefixes):
@@ -41,9 +42,9 @@ def oracle_c01_kzg(case, lo):
 PROPS = {
     "C01": {
         "props_file": "props/C01.v",
-        "flows": [(gen_kzg.gen, "c01", 60, 600)],
+        "flows": [(gen_kzg.gen, "c01", 60, 600), (gen_pc.gen, "c01", 96, 960)],
         "filter": None,
-        "oracles": [oracle_c01_kzg],
+        "oracles": [oracle_c01_kzg, pc_honest, lambda c, lo: pc_mutations(c, lo, ("vperm",))],
         "title": "Completeness",
     },
 }
